@@ -8,23 +8,30 @@ package fusemanager
 // manager restart with scripted failures.  One canonical line per operation is compared with the
 // Lean model (svdriver_c17); independently, the C17 predicate is evaluated on what the real code
 // did (verifOracle).
+//
+// The harness deliberately uses ONLY the exported surface of the package (NewFuseManager, the RPC
+// methods incl. Status, RegisterConfigFunc, Config/ConfigContext, the FuseManager* constants and the
+// VerifWrapFileSystem hook) plus the on-disk format of the store (a bolt file whose records are JSON
+// objects with the keys Mountpoint / Labels / Config): a refactor that renames or restructures
+// unexported fields, locks or helpers must not break it.  What the manager serves is observed through
+// Check probes, what it recorded through a copy of the bolt file.
 
 import (
 	"context"
 	"encoding/json"
 	"errors"
 	"fmt"
-	"go/ast"
-	"go/parser"
-	"go/token"
 	"io"
 	"os"
 	"path/filepath"
-	"runtime"
+	"reflect"
 	"sort"
 	"strconv"
 	"strings"
+	"sync"
 	"testing"
+	"time"
+	"unsafe"
 
 	"github.com/moby/sys/mountinfo"
 	"github.com/sirupsen/logrus"
@@ -67,10 +74,12 @@ func verifLabelID(m map[string]string) string {
 }
 
 // verifFakeFs is a recording snapshot.FileSystem; its identity is its construction index.
+// All its state is protected by the harness mutex (RPCs may run on several goroutines).
 type verifFakeFs struct {
 	h       *verifHarness
 	id      int
 	gen     string         // configuration generation it was built from
+	dead    bool           // belongs to a manager process that has been killed
 	mounted map[string]int // mountpoint -> number of successful Mounts not undone by an Unmount
 }
 
@@ -83,19 +92,31 @@ func verifOkStr(ok bool) string {
 
 func (f *verifFakeFs) Mount(ctx context.Context, mountpoint string, labels map[string]string) error {
 	h := f.h
+	h.mu.Lock()
+	defer h.mu.Unlock()
+	if f.dead {
+		return nil
+	}
 	ok := !h.failMount[mountpoint]
+	if h.conc {
+		delete(h.failMount, mountpoint) // one-shot in the concurrent pass
+	}
 	mp := h.mpName(mountpoint)
 	lab := verifLabelID(labels)
-	h.calls = append(h.calls, fmt.Sprintf("M%d:%s:%s:%s", f.id, mp, lab, verifOkStr(ok)))
-	h.mountCalls = append(h.mountCalls, verifMountCall{fs: f.id, mp: mountpoint, lab: lab, ok: ok})
+	if !h.conc {
+		h.calls = append(h.calls, fmt.Sprintf("M%d:%s:%s:%s", f.id, mp, lab, verifOkStr(ok)))
+		h.mountCalls = append(h.mountCalls, verifMountCall{fs: f.id, mp: mountpoint, lab: lab, ok: ok})
+	}
 	// oracle: a mountpoint with a live mount is never mounted again (on any instance)
 	for _, g := range h.fakes {
 		if g.mounted[mountpoint] > 0 {
 			h.out.Fail("second-mount", fmt.Sprintf("fs.Mount(%s) on fs%d while it is live on fs%d", mp, f.id, g.id))
 		}
 	}
-	// oracle: mounts go to the newest filesystem
-	if f.id != h.newest {
+	// oracle: mounts go to the newest filesystem (sequential histories only: with RPCs in flight on
+	// other goroutines "newest" is not defined at this instant; the concurrent pass checks it at
+	// quiescence)
+	if !h.conc && f.id != h.newest {
 		h.out.Fail("mount-on-stale-fs", fmt.Sprintf("fs.Mount(%s) on fs%d but the newest filesystem is fs%d", mp, f.id, h.newest))
 	}
 	if !ok {
@@ -107,11 +128,23 @@ func (f *verifFakeFs) Mount(ctx context.Context, mountpoint string, labels map[s
 
 func (f *verifFakeFs) Check(ctx context.Context, mountpoint string, labels map[string]string) error {
 	h := f.h
-	ok := !h.failCall
+	h.mu.Lock()
+	defer h.mu.Unlock()
+	if f.dead {
+		return nil
+	}
+	if h.probing {
+		// an owner probe of the harness (see probeOwners): no script, no log
+		h.probeHits = append(h.probeHits, f.id)
+		return nil
+	}
+	ok := !h.failCall[mountpoint]
 	mp := h.mpName(mountpoint)
-	h.calls = append(h.calls, fmt.Sprintf("C%d:%s:%s:%s", f.id, mp, verifLabelID(labels), verifOkStr(ok)))
+	if !h.conc {
+		h.calls = append(h.calls, fmt.Sprintf("C%d:%s:%s:%s", f.id, mp, verifLabelID(labels), verifOkStr(ok)))
+	}
 	if f.mounted[mountpoint] == 0 {
-		h.out.Fail("check-wrong-fs", fmt.Sprintf("fs.Check(%s) sent to fs%d which has no live mount of it (owner: %s)", mp, f.id, h.ownerOf(mountpoint)))
+		h.out.Fail("check-wrong-fs", fmt.Sprintf("fs.Check(%s) sent to fs%d which has no live mount of it (owner: %s)", mp, f.id, h.ownerOfLocked(mountpoint)))
 	}
 	if !ok {
 		return errors.New("verif: scripted check failure")
@@ -121,17 +154,27 @@ func (f *verifFakeFs) Check(ctx context.Context, mountpoint string, labels map[s
 
 func (f *verifFakeFs) Unmount(ctx context.Context, mountpoint string) error {
 	h := f.h
-	ok := !h.failCall
+	h.mu.Lock()
+	defer h.mu.Unlock()
+	if f.dead {
+		return nil
+	}
+	ok := !h.failCall[mountpoint]
 	mp := h.mpName(mountpoint)
-	h.calls = append(h.calls, fmt.Sprintf("U%d:%s:%s", f.id, mp, verifOkStr(ok)))
+	if !h.conc {
+		h.calls = append(h.calls, fmt.Sprintf("U%d:%s:%s", f.id, mp, verifOkStr(ok)))
+	}
 	if f.mounted[mountpoint] == 0 {
-		h.out.Fail("unmount-wrong-fs", fmt.Sprintf("fs.Unmount(%s) sent to fs%d which has no live mount of it (owner: %s)", mp, f.id, h.ownerOf(mountpoint)))
+		h.out.Fail("unmount-wrong-fs", fmt.Sprintf("fs.Unmount(%s) sent to fs%d which has no live mount of it (owner: %s)", mp, f.id, h.ownerOfLocked(mountpoint)))
 	}
 	if !ok {
 		return errors.New("verif: scripted unmount failure")
 	}
 	if f.mounted[mountpoint] > 0 {
 		f.mounted[mountpoint]--
+		if f.mounted[mountpoint] == 0 {
+			delete(f.mounted, mountpoint)
+		}
 	}
 	return nil
 }
@@ -157,20 +200,32 @@ type verifHarness struct {
 	mps       []string       // index -> path, in byte order (= bolt key order)
 	mpIdx     map[string]int // path -> index
 	isOs      []bool
+	srv       *Server
 
-	srv    *Server
+	mu     sync.Mutex // protects everything below (hooks run on the goroutines of the RPCs)
+	conc   bool       // concurrent pass: no call log, one-shot mount failures
 	nextFs int
 	fakes  []*verifFakeFs // fakes of the current manager process
 	newest int            // id of the last constructed fake (-1: none in this process)
+	// generation of the config the configFunc saw last (the construction hook follows it on the same
+	// goroutine, inside the same Init)
+	lastGen string
 
 	// script of the operation in flight
 	failCfgFunc   bool
 	failConstruct bool
 	failMount     map[string]bool
-	failCall      bool
+	failCall      map[string]bool // fs.Check / fs.Unmount of that mountpoint fails
 	calls         []string
 	mountCalls    []verifMountCall
 	constructed   int // id constructed by the Init in flight, -1 if none
+	probing       bool
+	probeHits     []int
+
+	// overlapping-Init trial of the concurrent pass: the configFunc of generation blockGen waits
+	blockGen     string
+	blockEntered chan struct{}
+	blockRelease chan struct{}
 
 	// oracle bookkeeping (derived from what the real code did, not from the model)
 	closed    bool // Close() was called on this Server
@@ -178,6 +233,7 @@ type verifHarness struct {
 	everBuilt bool // a filesystem was constructed since this manager process started
 	revived   bool // an Init ran after Close() on the same Server
 	histShape []string
+	cur       verifState // observation of the quiescent state after the last operation
 }
 
 func (h *verifHarness) mpName(path string) string {
@@ -187,7 +243,7 @@ func (h *verifHarness) mpName(path string) string {
 	return "?"
 }
 
-func (h *verifHarness) ownerOf(path string) string {
+func (h *verifHarness) ownerOfLocked(path string) string {
 	var o []string
 	for _, f := range h.fakes {
 		if f.mounted[path] > 0 {
@@ -200,8 +256,10 @@ func (h *verifHarness) ownerOf(path string) string {
 	return strings.Join(o, "+")
 }
 
-// owners: mountpoint -> ids of the fakes holding a live mount of it.
-func (h *verifHarness) owners() map[string][]int {
+// liveMounts: mountpoint -> ids of the fakes holding a live mount of it (the backend's view).
+func (h *verifHarness) liveMounts() map[string][]int {
+	h.mu.Lock()
+	defer h.mu.Unlock()
 	m := map[string][]int{}
 	for _, f := range h.fakes {
 		for p, n := range f.mounted {
@@ -213,11 +271,22 @@ func (h *verifHarness) owners() map[string][]int {
 	return m
 }
 
-func (h *verifHarness) wrap(fs snapshot.FileSystem, err error) (snapshot.FileSystem, error) {
-	gen := "?"
-	if h.srv != nil && h.srv.config != nil {
-		gen = strconv.FormatInt(h.srv.config.Config.PrefetchSize, 10)
+func (h *verifHarness) fakeGen(id int) string {
+	h.mu.Lock()
+	defer h.mu.Unlock()
+	for _, f := range h.fakes {
+		if f.id == id {
+			return f.gen
+		}
 	}
+	return "?"
+}
+
+// wrap is the VerifWrapFileSystem hook: Init calls it right after service.NewFileSystem.
+func (h *verifHarness) wrap(fs snapshot.FileSystem, err error) (snapshot.FileSystem, error) {
+	h.mu.Lock()
+	defer h.mu.Unlock()
+	gen := h.lastGen
 	if err != nil {
 		// the REAL constructor must work offline in the temp root; anything else is an environment problem
 		h.out.Fail("real-newfilesystem-failed", err.Error())
@@ -227,94 +296,236 @@ func (h *verifHarness) wrap(fs snapshot.FileSystem, err error) (snapshot.FileSys
 		return nil, errors.New("verif: scripted construction failure")
 	}
 	f := &verifFakeFs{h: h, id: h.nextFs, gen: gen, mounted: map[string]int{}}
-
 	h.nextFs++
 	h.fakes = append(h.fakes, f)
 	h.newest = f.id
 	h.constructed = f.id
 	h.everBuilt = true
-	h.calls = append(h.calls, fmt.Sprintf("N%d:%s", f.id, gen))
+	if !h.conc {
+		h.calls = append(h.calls, fmt.Sprintf("N%d:%s", f.id, gen))
+	}
 	return f, nil
 }
 
+// cfgFunc is registered with RegisterConfigFunc: Init runs it before constructing the filesystem.
 func (h *verifHarness) cfgFunc(cc *ConfigContext) ([]service.Option, error) {
 	gen := strconv.FormatInt(cc.Config.Config.PrefetchSize, 10)
-	h.calls = append(h.calls, fmt.Sprintf("F%s:%s", gen, verifOkStr(!h.failCfgFunc)))
+	h.mu.Lock()
+	block := h.blockGen != "" && h.blockGen == gen
+	entered, release := h.blockEntered, h.blockRelease
+	h.mu.Unlock()
+	if block {
+		close(entered)
+		<-release
+	}
+	h.mu.Lock()
+	defer h.mu.Unlock()
+	h.lastGen = gen
+	if !h.conc {
+		h.calls = append(h.calls, fmt.Sprintf("F%s:%s", gen, verifOkStr(!h.failCfgFunc)))
+	}
 	if h.failCfgFunc {
 		return nil, errors.New("verif: scripted configFunc failure")
 	}
 	return nil, nil
 }
 
+var (
+	verifCurMu   sync.Mutex
+	verifCur     *verifHarness
+	verifRegOnce sync.Once
+)
+
+// verifInstall routes the package-level hooks to harness h (RegisterConfigFunc cannot be undone, so
+// one trampoline is registered once per test process).
+func verifInstall(h *verifHarness) {
+	verifCurMu.Lock()
+	verifCur = h
+	verifCurMu.Unlock()
+	verifRegOnce.Do(func() {
+		RegisterConfigFunc(func(cc *ConfigContext) ([]service.Option, error) {
+			verifCurMu.Lock()
+			c := verifCur
+			verifCurMu.Unlock()
+			if c == nil {
+				return nil, nil
+			}
+			return c.cfgFunc(cc)
+		})
+	})
+	VerifWrapFileSystem = h.wrap
+}
+
+// killServer simulates the death of the manager process: its bolt handle (and file lock) goes
+// away, the store file stays as it was, backend mounts die.  Only exported API: the file content is
+// saved, Close() (which also removes the file) releases the handle, the content is put back.
+func (h *verifHarness) killServer() {
+	if h.srv == nil {
+		return
+	}
+	h.mu.Lock()
+	for _, f := range h.fakes {
+		f.dead = true
+	}
+	h.fakes = nil
+	h.mu.Unlock()
+	if !h.closed {
+		data, rerr := os.ReadFile(h.storePath)
+		func() {
+			defer func() { recover() }()
+			h.srv.Close(context.Background())
+		}()
+		if rerr == nil {
+			if err := os.MkdirAll(filepath.Dir(h.storePath), 0o700); err != nil {
+				h.t.Fatal(err)
+			}
+			if err := os.WriteFile(h.storePath, data, 0o600); err != nil {
+				h.t.Fatal(err)
+			}
+		}
+	}
+	h.srv = nil
+}
+
 // newServer starts a manager "process" on the kept store path.
 func (h *verifHarness) newServer() {
-	if h.srv != nil && !h.closed {
-		// the old process dies: its bolt handle (and file lock) goes away, the file stays
-		h.srv.ms.Close()
-	}
+	h.killServer()
 	srv, err := NewFuseManager(context.Background(), nil, nil, h.storePath, "")
 	if err != nil {
 		h.t.Fatalf("NewFuseManager: %v", err)
 	}
 	h.srv = srv
+	h.mu.Lock()
 	h.fakes = nil
 	h.newest = -1
+	h.everBuilt = false
+	h.mu.Unlock()
 	h.closed = false
 	h.lastInit = ""
-	h.everBuilt = false
 	h.revived = false
 }
 
 func (h *verifHarness) reset() {
-	if h.srv != nil && !h.closed {
-		h.srv.ms.Close()
-	}
-	h.srv = nil
+	h.killServer()
 	os.Remove(h.storePath)
+	h.mu.Lock()
 	h.nextFs = 0
+	h.mu.Unlock()
 	h.histShape = nil
 	h.newServer()
 }
 
-// readStore returns the bolt bucket content (nil, false when the database is closed).
-func (h *verifHarness) readStore() (map[string]verifRec, []string, bool) {
+// liveDB finds the Server's open bolt handle WITHOUT naming the field: any field of type *bolt.DB
+// (reflection by type; nil when the Server keeps its store differently — readStore then falls back
+// to opening a copy of the file, which is slower but needs nothing from the Server).
+func (h *verifHarness) liveDB() *bolt.DB {
+	if h.srv == nil || os.Getenv("VERIF_C17_STORE_COPY") == "1" {
+		return nil
+	}
+	v := reflect.ValueOf(h.srv).Elem()
+	want := reflect.TypeOf((*bolt.DB)(nil))
+	for i := 0; i < v.NumField(); i++ {
+		if f := v.Field(i); f.Type() == want && f.CanAddr() {
+			return *(**bolt.DB)(unsafe.Pointer(f.UnsafeAddr()))
+		}
+	}
+	return nil
+}
+
+// scanStore decodes every record of every bucket, in bolt key order.  Only the on-disk format is
+// assumed: JSON objects with the keys Mountpoint / Labels / Config.
+func (h *verifHarness) scanStore(db *bolt.DB) (map[string]verifRec, []string, error) {
 	recs := map[string]verifRec{}
 	var keys []string
-	err := h.srv.ms.View(func(tx *bolt.Tx) error {
-		b := tx.Bucket(fuseInfoBucket)
-		if b == nil {
-			return nil
-		}
-		return b.ForEach(func(k, v []byte) error {
-			fi := &fuseInfo{}
-			if err := json.Unmarshal(v, fi); err != nil {
-				return err
-			}
-			if fi.Mountpoint != string(k) {
-				h.out.Fail("store-key-ne-mountpoint", fmt.Sprintf("key %q holds record of %q", k, fi.Mountpoint))
-			}
-			recs[string(k)] = verifRec{lab: verifLabelID(fi.Labels), cfg: strconv.FormatInt(fi.Config.PrefetchSize, 10)}
-			keys = append(keys, string(k)) // ForEach order = bolt key order
-			return nil
+	err := db.View(func(tx *bolt.Tx) error {
+		return tx.ForEach(func(_ []byte, b *bolt.Bucket) error {
+			return b.ForEach(func(k, v []byte) error {
+				var fi struct {
+					Mountpoint string
+					Labels     map[string]string
+					Config     struct {
+						PrefetchSize int64 `json:"prefetch_size"`
+					}
+				}
+				if err := json.Unmarshal(v, &fi); err != nil {
+					return err
+				}
+				if fi.Mountpoint != string(k) {
+					h.out.Fail("store-key-ne-mountpoint", fmt.Sprintf("key %q holds record of %q", k, fi.Mountpoint))
+				}
+				recs[string(k)] = verifRec{lab: verifLabelID(fi.Labels), cfg: strconv.FormatInt(fi.Config.PrefetchSize, 10)}
+				keys = append(keys, string(k)) // ForEach order = bolt key order
+				return nil
+			})
 		})
 	})
+	return recs, keys, err
+}
+
+// readStore returns the records of the store file in bolt key order (nil, false when the file does
+// not exist, i.e. after Close).  At a quiescent point every committed transaction is in the file.
+func (h *verifHarness) readStore() (map[string]verifRec, []string, bool) {
+	if _, err := os.Stat(h.storePath); err != nil {
+		return nil, nil, false
+	}
+	if db := h.liveDB(); db != nil {
+		if recs, keys, err := h.scanStore(db); err == nil {
+			return recs, keys, true
+		}
+	}
+	// the live database is locked by the Server: open a copy of the file
+	data, err := os.ReadFile(h.storePath)
 	if err != nil {
 		return nil, nil, false
+	}
+	tmp := filepath.Join(h.base, "store-copy.db")
+	if err := os.WriteFile(tmp, data, 0o600); err != nil {
+		h.t.Fatal(err)
+	}
+	db, err := bolt.Open(tmp, 0o600, &bolt.Options{ReadOnly: true, Timeout: 5 * time.Second})
+	if err != nil {
+		h.t.Fatalf("cannot open the copy of the store: %v", err)
+	}
+	defer db.Close()
+	recs, keys, err := h.scanStore(db)
+	if err != nil {
+		h.out.Fail("store-unreadable", err.Error())
 	}
 	return recs, keys, true
 }
 
-func (h *verifHarness) fsMapSnapshot() map[string]int {
+func (h *verifHarness) status() int32 {
+	resp, err := h.srv.Status(context.Background(), &pb.StatusRequest{})
+	if err != nil || resp == nil {
+		return -1
+	}
+	return resp.Status
+}
+
+// probeOwners asks the manager, through Check RPCs, which filesystem instance serves each
+// mountpoint.  Only possible while the manager accepts requests; (nil, false) otherwise.
+func (h *verifHarness) probeOwners() (map[string]int, bool) {
+	if h.status() != FuseManagerReady {
+		return nil, false
+	}
 	m := map[string]int{}
-	h.srv.fsMap.Range(func(k, v any) bool {
-		id := -1
-		if f, ok := v.(*verifFakeFs); ok {
-			id = f.id
+	for _, p := range h.mps {
+		h.mu.Lock()
+		h.probing, h.probeHits = true, nil
+		h.mu.Unlock()
+		func() {
+			defer func() { recover() }()
+			h.srv.Check(context.Background(), &pb.CheckRequest{Mountpoint: p})
+		}()
+		h.mu.Lock()
+		hits := h.probeHits
+		h.probing, h.probeHits = false, nil
+		h.mu.Unlock()
+		if len(hits) > 0 {
+			m[p] = hits[0]
 		}
-		m[k.(string)] = id
-		return true
-	})
-	return m
+	}
+	return m, true
 }
 
 func verifJoin(l []string) string {
@@ -324,68 +535,61 @@ func verifJoin(l []string) string {
 	return strings.Join(l, ",")
 }
 
+// verifState is what can be observed of a quiescent manager.
 type verifState struct {
+	status    int32
 	store     map[string]verifRec
-	storeOpen bool
-	fsMap     map[string]int
+	storeKeys []string
+	storeOpen bool           // the store file exists
+	fsMap     map[string]int // mountpoint -> serving instance (owner probes)
+	fsKnown   bool           // the manager accepts requests, so fsMap could be probed
 	owners    map[string][]int
 }
 
 func (h *verifHarness) snapshot() verifState {
-	recs, _, open := h.readStore()
-	return verifState{store: recs, storeOpen: open, fsMap: h.fsMapSnapshot(), owners: h.owners()}
+	recs, keys, open := h.readStore()
+	fm, known := h.probeOwners()
+	return verifState{status: h.status(), store: recs, storeKeys: keys, storeOpen: open,
+		fsMap: fm, fsKnown: known, owners: h.liveMounts()}
 }
 
 // stateLine renders the observable state exactly like svdriver_c17.
-func (h *verifHarness) stateLine(res string) string {
-	st := map[int32]string{FuseManagerNotReady: "notready", FuseManagerWaitInit: "wait", FuseManagerReady: "ready"}[h.srv.status]
-	cur := "-"
-	if h.srv.curFs != nil {
-		if f, ok := h.srv.curFs.(*verifFakeFs); ok {
-			cur = strconv.Itoa(f.id)
-		} else {
-			cur = "real"
-		}
-	}
-	cfg := "-"
-	if h.srv.config != nil {
-		cfg = strconv.FormatInt(h.srv.config.Config.PrefetchSize, 10)
-	}
-	recs, keys, open := h.readStore()
+func (h *verifHarness) stateLine(res string, s verifState) string {
+	st := map[int32]string{FuseManagerNotReady: "notready", FuseManagerWaitInit: "wait", FuseManagerReady: "ready"}[s.status]
 	var store []string
-	if open {
-		// keys are in bolt order; the mountpoint numbering is the byte order, so this is ascending
-		for _, k := range keys {
-			store = append(store, fmt.Sprintf("%s:%s:%s", h.mpName(k), recs[k].lab, recs[k].cfg))
-		}
-	} else if _, err := os.Stat(h.storePath); err == nil {
-		store = append(store, "closed-but-file-exists")
+	// keys are in bolt order; the mountpoint numbering is the byte order, so this is ascending
+	for _, k := range s.storeKeys {
+		store = append(store, fmt.Sprintf("%s:%s:%s", h.mpName(k), s.store[k].lab, s.store[k].cfg))
 	}
-	fm := h.fsMapSnapshot()
-	var fks []string
-	for k := range fm {
-		fks = append(fks, k)
-	}
-	sort.Slice(fks, func(i, j int) bool { return h.mpIdx[fks[i]] < h.mpIdx[fks[j]] })
-	var fsmap []string
-	for _, k := range fks {
-		fsmap = append(fsmap, fmt.Sprintf("%s:%d", h.mpName(k), fm[k]))
-	}
-	var live []string
-	for _, f := range h.fakes { // fakes are in ascending id order
-		var ps []string
-		for p := range f.mounted {
-			ps = append(ps, p)
-		}
-		sort.Slice(ps, func(i, j int) bool { return h.mpIdx[ps[i]] < h.mpIdx[ps[j]] })
-		for _, p := range ps {
-			for i := 0; i < f.mounted[p]; i++ {
-				live = append(live, fmt.Sprintf("%d:%s", f.id, h.mpName(p)))
+	fsmap := "?"
+	if s.fsKnown {
+		var l []string
+		for i, p := range h.mps {
+			if id, ok := s.fsMap[p]; ok {
+				l = append(l, fmt.Sprintf("%d:%d", i, id))
 			}
 		}
+		fsmap = verifJoin(l)
 	}
-	return fmt.Sprintf("%s st=%s cur=%s cfg=%s calls=%s store=%s fsmap=%s live=%s",
-		res, st, cur, cfg, verifJoin(h.calls), verifJoin(store), verifJoin(fsmap), verifJoin(live))
+	type pair struct{ id, mp int }
+	var lp []pair
+	for i, p := range h.mps {
+		for _, id := range s.owners[p] {
+			lp = append(lp, pair{id, i})
+		}
+	}
+	sort.Slice(lp, func(a, b int) bool {
+		if lp[a].id != lp[b].id {
+			return lp[a].id < lp[b].id
+		}
+		return lp[a].mp < lp[b].mp
+	})
+	var live []string
+	for _, x := range lp {
+		live = append(live, fmt.Sprintf("%d:%d", x.id, x.mp))
+	}
+	return fmt.Sprintf("%s st=%s calls=%s store=%s fsmap=%s live=%s",
+		res, st, verifJoin(h.calls), verifJoin(store), fsmap, verifJoin(live))
 }
 
 // rpc runs one RPC on the real server, converting a panic into the result "panic".
@@ -412,6 +616,15 @@ func (h *verifHarness) cfgJSON(gen int64) []byte {
 	return b
 }
 
+func (h *verifHarness) clearScript() {
+	h.mu.Lock()
+	h.failCfgFunc, h.failConstruct = false, false
+	h.failMount = map[string]bool{}
+	h.failCall = map[string]bool{}
+	h.calls, h.mountCalls, h.constructed = nil, nil, -1
+	h.mu.Unlock()
+}
+
 // exec parses one op line (the same line the Lean driver reads), runs it on the real code, emits
 // the canonical result and evaluates the oracle.  Returns false on a malformed line.
 func (h *verifHarness) exec(line string) bool {
@@ -420,9 +633,7 @@ func (h *verifHarness) exec(line string) bool {
 		return false
 	}
 	ctx := context.Background()
-	h.failCfgFunc, h.failConstruct, h.failCall = false, false, false
-	h.failMount = map[string]bool{}
-	h.calls, h.mountCalls, h.constructed = nil, nil, -1
+	h.clearScript()
 	mpOf := func(s string) (string, bool) {
 		i, err := strconv.Atoi(s)
 		if err != nil || i < 0 || i >= len(h.mps) {
@@ -441,12 +652,14 @@ func (h *verifHarness) exec(line string) bool {
 
 	if ws[0] == "reset" && len(ws) == 1 {
 		h.reset()
-		h.out.Emit(line, h.stateLine("ok"))
+		h.cur = h.snapshot()
+		h.out.Emit(line, h.stateLine("ok", h.cur))
 		return true
 	}
-	before := h.snapshot()
+	before := h.cur
 	h.histShape = append(h.histShape, line)
 	var res string
+	var post func(now verifState)
 	switch {
 	case ws[0] == "init" && len(ws) == 4:
 		gen, err := strconv.ParseInt(ws[1], 10, 64)
@@ -483,8 +696,8 @@ func (h *verifHarness) exec(line string) bool {
 			_, err := h.srv.Init(ctx, &pb.InitRequest{Root: h.root, Config: cfg})
 			return err
 		})
-		h.oracleInit(ws[2], res, before)
-		h.lastInit = res
+		stage := ws[2]
+		post = func(now verifState) { h.oracleInit(stage, res, before, now); h.lastInit = res }
 	case ws[0] == "mount" && len(ws) == 4:
 		p, ok1 := mpOf(ws[1])
 		lab, ok2 := labOf(ws[2])
@@ -497,7 +710,8 @@ func (h *verifHarness) exec(line string) bool {
 			_, err := h.srv.Mount(ctx, &pb.MountRequest{Mountpoint: p, Labels: lab})
 			return err
 		})
-		h.oracleMount(p, ws[2], res, before)
+		labID := ws[2]
+		post = func(now verifState) { h.oracleMount(p, labID, res, before, now) }
 	case ws[0] == "check" && len(ws) == 4:
 		p, ok1 := mpOf(ws[1])
 		lab, ok2 := labOf(ws[2])
@@ -505,12 +719,12 @@ func (h *verifHarness) exec(line string) bool {
 		if !ok1 || !ok2 || !ok3 {
 			return false
 		}
-		h.failCall = !ok
+		h.failCall[p] = !ok
 		res = h.rpc(func() error {
 			_, err := h.srv.Check(ctx, &pb.CheckRequest{Mountpoint: p, Labels: lab})
 			return err
 		})
-		h.oracleCheck(p, res, ok, before)
+		post = func(now verifState) { h.oracleCheck(p, res, ok, before) }
 	case ws[0] == "unmount" && len(ws) == 4:
 		p, ok1 := mpOf(ws[1])
 		ok, ok3 := okOf(ws[2])
@@ -520,12 +734,12 @@ func (h *verifHarness) exec(line string) bool {
 		if (ws[3] == "1") != h.isOs[h.mpIdx[p]] {
 			h.t.Fatalf("op line says os=%s for %s but mountinfo disagrees", ws[3], p)
 		}
-		h.failCall = !ok
+		h.failCall[p] = !ok
 		res = h.rpc(func() error {
 			_, err := h.srv.Unmount(ctx, &pb.UnmountRequest{Mountpoint: p})
 			return err
 		})
-		h.oracleUnmount(p, res, ok, before)
+		post = func(now verifState) { h.oracleUnmount(p, res, ok, before, now) }
 	case ws[0] == "close" && len(ws) == 1:
 		res = h.rpc(func() error { return h.srv.Close(ctx) })
 		h.closed = true
@@ -539,19 +753,25 @@ func (h *verifHarness) exec(line string) bool {
 	default:
 		return false
 	}
-	h.out.Emit(line, h.stateLine(res))
+	// the calls of the operation are complete here; the probes below are not part of them
+	now := h.snapshot()
+	h.cur = now
+	h.out.Emit(line, h.stateLine(res, now))
 	h.out.Count(ws[0])
-	h.oracleQuiescent(ws[0], before)
+	if post != nil {
+		post(now)
+	}
+	h.oracleQuiescent(ws[0], before, now)
 	return true
 }
 
 // ---------------------------------------------------------------------------------------------
-// The property oracle.  It only uses: RPC results, the fakes' call logs / live sets, the bolt
-// bucket and fm.fsMap — never the model.
+// The property oracle.  It only uses: RPC results, the fakes' call logs / live sets, the records in
+// the store file and the owner probes — never the model.
 
 // requests before a successful first initialisation (no filesystem constructed since the process
 // started) and after Close must fail without calling any filesystem and without changing anything.
-func (h *verifHarness) mustReject(what, res string, before verifState) bool {
+func (h *verifHarness) mustReject(what, res string) bool {
 	var when, sig string
 	switch {
 	case !h.everBuilt:
@@ -570,7 +790,7 @@ func (h *verifHarness) mustReject(what, res string, before verifState) bool {
 	return true
 }
 
-func (h *verifHarness) oracleInit(stage, res string, before verifState) {
+func (h *verifHarness) oracleInit(stage, res string, before, now verifState) {
 	if stage != "ok" && res != "err" {
 		h.out.Fail("init-hides-failure", fmt.Sprintf("Init with a %s failure returned %s", stage, res))
 	}
@@ -586,15 +806,18 @@ func (h *verifHarness) oracleInit(stage, res string, before verifState) {
 		if stage == "ok" && !before.storeOpen {
 			h.out.Fail("init-ok-without-store", "Init returned ok although the store is closed")
 		}
-		// every recorded mountpoint is served afterwards; those not served before were mounted on the
+		if !now.fsKnown {
+			h.out.Fail("init-ok-not-ready", "Init returned ok but the manager does not accept requests")
+			return
+		}
+		// every recorded mountpoint is served afterwards; those not live before were mounted on the
 		// new filesystem with their recorded labels
-		after := h.fsMapSnapshot()
 		for p, r := range before.store {
-			if _, ok := after[p]; !ok {
+			if _, ok := now.fsMap[p]; !ok {
 				h.out.Fail("init-ok-but-recorded-not-served", fmt.Sprintf("Init returned ok but recorded %s is not served", h.mpName(p)))
 				continue
 			}
-			if _, was := before.fsMap[p]; was {
+			if len(before.owners[p]) > 0 {
 				continue
 			}
 			found := false
@@ -613,15 +836,15 @@ func (h *verifHarness) oracleInit(stage, res string, before verifState) {
 	}
 }
 
-func (h *verifHarness) oracleMount(p, lab, res string, before verifState) {
-	if h.mustReject("Mount", res, before) {
+func (h *verifHarness) oracleMount(p, lab, res string, before, now verifState) {
+	if h.mustReject("Mount", res) {
 		return
 	}
-	after := h.fsMapSnapshot()
-	_, served := after[p]
+	_, served := now.fsMap[p]
+	wasLive := len(before.owners[p]) > 0
 	if res == "ok" {
-		if !served {
-			h.out.Fail("mount-ok-not-served", fmt.Sprintf("Mount(%s) returned ok but it is not in fsMap", h.mpName(p)))
+		if now.fsKnown && !served {
+			h.out.Fail("mount-ok-not-served", fmt.Sprintf("Mount(%s) returned ok but the manager does not serve it", h.mpName(p)))
 		}
 		for _, c := range h.mountCalls {
 			if !c.ok {
@@ -631,30 +854,25 @@ func (h *verifHarness) oracleMount(p, lab, res string, before verifState) {
 				h.out.Fail("mount-wrong-args", fmt.Sprintf("Mount(%s,%s) called fs.Mount(%s,%s)", h.mpName(p), lab, h.mpName(c.mp), c.lab))
 			}
 		}
-		if _, was := before.fsMap[p]; !was && len(h.mountCalls) != 1 {
+		if !wasLive && len(h.mountCalls) != 1 {
 			h.out.Fail("mount-ok-without-fs-mount", fmt.Sprintf("Mount(%s) returned ok with %d fs.Mount calls", h.mpName(p), len(h.mountCalls)))
 		}
 		// observation, NOT a clause of C17 (the property speaks of mountpoints and labels, and
-		// restoreFuseInfo never reads the field): the record written for a NEW mount carries fm.config,
-		// which a failed re-Init may have replaced while the filesystem built from the previous config
-		// keeps serving.  Only counted; checks/C17.py turns the count into an evidence note.
-		if len(h.mountCalls) == 1 {
-			recs, _, open := h.readStore()
-			for _, f := range h.fakes {
-				if open && f.id == h.mountCalls[0].fs && recs[p].cfg != f.gen {
-					h.out.Count("obs-record-config-differs-from-owner-config")
-				}
+		// restore never reads the field): the record written for a NEW mount carries the manager's
+		// current config, which a failed re-Init may have replaced while the filesystem built from the
+		// previous config keeps serving.  Only counted; checks/C17.py turns the count into a note.
+		if len(h.mountCalls) == 1 && now.storeOpen {
+			if r, ok := now.store[p]; ok && r.cfg != h.fakeGen(h.mountCalls[0].fs) {
+				h.out.Count("obs-record-config-differs-from-owner-config")
 			}
 		}
-	} else {
-		if _, was := before.fsMap[p]; !was && served {
-			h.out.Fail("mount-failed-but-served", fmt.Sprintf("Mount(%s) returned %s but it is in fsMap", h.mpName(p), res))
-		}
+	} else if !wasLive && served {
+		h.out.Fail("mount-failed-but-served", fmt.Sprintf("Mount(%s) returned %s but the manager serves it", h.mpName(p), res))
 	}
 }
 
 func (h *verifHarness) oracleCheck(p, res string, scriptedOk bool, before verifState) {
-	if h.mustReject("Check", res, before) {
+	if h.mustReject("Check", res) {
 		return
 	}
 	own := before.owners[p]
@@ -673,8 +891,8 @@ func (h *verifHarness) oracleCheck(p, res string, scriptedOk bool, before verifS
 	}
 }
 
-func (h *verifHarness) oracleUnmount(p, res string, scriptedOk bool, before verifState) {
-	if h.mustReject("Unmount", res, before) {
+func (h *verifHarness) oracleUnmount(p, res string, scriptedOk bool, before, now verifState) {
+	if h.mustReject("Unmount", res) {
 		return
 	}
 	own := before.owners[p]
@@ -695,29 +913,35 @@ func (h *verifHarness) oracleUnmount(p, res string, scriptedOk bool, before veri
 	if (res == "ok") != scriptedOk {
 		h.out.Fail("unmount-result", fmt.Sprintf("Unmount(%s): fs.Unmount ok=%v but RPC returned %s", h.mpName(p), scriptedOk, res))
 	}
-	after := h.fsMapSnapshot()
-	if _, still := after[p]; still == (res == "ok") {
-		h.out.Fail("unmount-serving-mismatch", fmt.Sprintf("Unmount(%s) returned %s, still in fsMap: %v", h.mpName(p), res, still))
+	if now.fsKnown {
+		if _, still := now.fsMap[p]; still == (res == "ok") {
+			h.out.Fail("unmount-serving-mismatch", fmt.Sprintf("Unmount(%s) returned %s, still served: %v", h.mpName(p), res, still))
+		}
 	}
 }
 
 // oracleQuiescent: the invariant between two RPCs.
-func (h *verifHarness) oracleQuiescent(op string, before verifState) {
-	now := h.snapshot()
-	// the manager's owner table is exactly the set of live backend mounts, one per mountpoint
+func (h *verifHarness) oracleQuiescent(op string, before, now verifState) {
+	// the backend never holds two live mounts of one mountpoint
 	for p, ids := range now.owners {
 		if len(ids) > 1 {
 			h.out.Fail("second-mount", fmt.Sprintf("%s has %d live mounts (fs %v)", h.mpName(p), len(ids), ids))
 		}
+	}
+	if !now.fsKnown {
+		return // the manager does not accept requests: what it would serve cannot be observed
+	}
+	// the manager's owner table is exactly the set of live backend mounts
+	for p, ids := range now.owners {
 		if id, ok := now.fsMap[p]; !ok {
-			h.out.Fail("live-mount-not-served", fmt.Sprintf("%s is mounted on fs%d but not in fsMap", h.mpName(p), ids[0]))
+			h.out.Fail("live-mount-not-served", fmt.Sprintf("%s is mounted on fs%d but the manager does not serve it", h.mpName(p), ids[0]))
 		} else if id != ids[0] {
-			h.out.Fail("owner-mismatch", fmt.Sprintf("%s was mounted by fs%d but fsMap says fs%d", h.mpName(p), ids[0], id))
+			h.out.Fail("owner-mismatch", fmt.Sprintf("%s was mounted by fs%d but the manager routes it to fs%d", h.mpName(p), ids[0], id))
 		}
 	}
 	for p, id := range now.fsMap {
 		if len(now.owners[p]) == 0 {
-			h.out.Fail("served-without-live-mount", fmt.Sprintf("%s is in fsMap (fs%d) but no filesystem has it mounted", h.mpName(p), id))
+			h.out.Fail("served-without-live-mount", fmt.Sprintf("%s is served (fs%d) but no filesystem has it mounted", h.mpName(p), id))
 		}
 	}
 	// owner stability: only a successful Unmount of that mountpoint or a restart ends ownership
@@ -731,18 +955,15 @@ func (h *verifHarness) oracleQuiescent(op string, before verifState) {
 				h.out.Fail("owner-changed", fmt.Sprintf("%s moved from fs%d to fs%d during %s", h.mpName(p), ids[0], nid, op))
 			}
 			if !ok && op != "unmount" {
-				h.out.Fail("owner-lost", fmt.Sprintf("%s (fs%d) dropped from fsMap by %s", h.mpName(p), ids[0], op))
+				h.out.Fail("owner-lost", fmt.Sprintf("%s (fs%d) no longer served after %s", h.mpName(p), ids[0], op))
 			}
 		}
 	}
-	if h.srv.status == FuseManagerReady && h.srv.curFs == nil {
-		h.out.Fail("ready-without-filesystem", "status is Ready but curFs is nil")
-	}
 	if !now.storeOpen {
 		// Close removed the record; a manager that serves afterwards does so unrecorded
-		if h.closed && h.srv.status == FuseManagerReady {
+		if h.closed {
 			for p := range now.fsMap {
-				if _, was := before.fsMap[p]; !was {
+				if len(before.owners[p]) == 0 {
 					h.out.Fail("served-after-close-unrecorded", fmt.Sprintf("after Close + Init the manager is Ready again and serves %s without a store record", h.mpName(p)))
 				}
 			}
@@ -761,15 +982,15 @@ func (h *verifHarness) oracleQuiescent(op string, before verifState) {
 			unserved = append(unserved, p)
 		}
 	}
+	sort.Strings(unserved)
 	if len(unserved) > 0 && h.lastInit == "ok" {
-		sort.Strings(unserved)
 		h.out.Fail("recorded-not-served", fmt.Sprintf("%s recorded but not served although the last Init returned ok (after %s)", h.mpName(unserved[0]), op))
 	}
 	if op != "restart" && before.storeOpen {
 		// the recorded-but-unserved set never grows while the process lives
 		for _, p := range unserved {
 			_, wasRec := before.store[p]
-			_, wasServed := before.fsMap[p]
+			wasServed := len(before.owners[p]) > 0
 			if !wasRec || wasServed {
 				h.out.Fail("recorded-not-served", fmt.Sprintf("%s became recorded-but-unserved during %s", h.mpName(p), op))
 			}
@@ -790,13 +1011,11 @@ type verifGen struct {
 func (g *verifGen) pickMp(biasServed bool) int {
 	h := g.h
 	if biasServed && g.rnd.Intn(100) < 70 {
-		fm := h.fsMapSnapshot()
-		recs, _, _ := h.readStore()
 		var c []int
-		for p := range fm {
+		for p := range h.cur.owners {
 			c = append(c, h.mpIdx[p])
 		}
-		for p := range recs {
+		for p := range h.cur.store {
 			c = append(c, h.mpIdx[p])
 		}
 		if len(c) > 0 {
@@ -821,9 +1040,8 @@ func (g *verifGen) initLine() string {
 	stage := []string{"ok", "parse", "cfgfunc", "construct"}[g.rnd.Pick(76, 6, 9, 9)]
 	fails := "-"
 	if g.rnd.Intn(100) < 35 {
-		recs, _, _ := h.readStore()
 		var l []string
-		for p := range recs {
+		for p := range h.cur.store {
 			if g.rnd.Intn(100) < 40 {
 				l = append(l, h.mpName(p))
 			}
@@ -968,88 +1186,17 @@ func verifAfterCloseScenarios(plain []int) [][]string {
 	}
 }
 
-// verifLockFacts re-derives, from the source the harness was built against, the atomicity premise
-// of the model: every RPC method of Server takes fm.lock as its first statement and releases it in
-// a defer.  One stat "fact-lock-first:<Method>" is counted per method for which this holds.
-func verifLockFacts(out *verifutil.Out) {
-	_, self, _, ok := runtime.Caller(0)
-	if !ok {
-		return
-	}
-	src := filepath.Join(filepath.Dir(self), "service.go")
-	fset := token.NewFileSet()
-	f, err := parser.ParseFile(fset, src, nil, 0)
-	if err != nil {
-		return
-	}
-	isLockCall := func(n ast.Node, names ...string) bool {
-		c, ok := n.(*ast.CallExpr)
-		if !ok {
-			return false
-		}
-		sel, ok := c.Fun.(*ast.SelectorExpr)
-		if !ok {
-			return false
-		}
-		inner, ok := sel.X.(*ast.SelectorExpr)
-		if !ok || inner.Sel.Name != "lock" {
-			return false
-		}
-		for _, n := range names {
-			if sel.Sel.Name == n {
-				return true
-			}
-		}
-		return false
-	}
-	for _, d := range f.Decls {
-		fd, ok := d.(*ast.FuncDecl)
-		if !ok || fd.Recv == nil || fd.Body == nil || len(fd.Body.List) == 0 {
-			continue
-		}
-		switch fd.Name.Name {
-		case "Init", "Mount", "Check", "Unmount", "Close":
-		default:
-			continue
-		}
-		first, ok := fd.Body.List[0].(*ast.ExprStmt)
-		if !ok || !isLockCall(first.X, "Lock", "RLock") {
-			continue
-		}
-		deferred := false
-		for _, st := range fd.Body.List {
-			ds, ok := st.(*ast.DeferStmt)
-			if !ok {
-				continue
-			}
-			ast.Inspect(ds, func(n ast.Node) bool {
-				if n != nil && isLockCall(n, "Unlock", "RUnlock") {
-					deferred = true
-				}
-				return true
-			})
-		}
-		if deferred {
-			out.Count("fact-lock-first:" + fd.Name.Name)
-		}
-	}
-}
-
-func TestVerifC17(t *testing.T) {
+// verifSetup prepares the harness: temp dirs, mountpoint numbering, hooks.
+func verifSetup(t *testing.T, out *verifutil.Out) (h *verifHarness, osIdx int, plain []int, cleanup func()) {
 	logrus.SetOutput(io.Discard)
 	logrus.SetLevel(logrus.PanicLevel)
-	out := verifutil.OpenOut()
-	defer out.Close()
-	rnd := verifutil.NewRand(verifutil.Seed())
-	verifLockFacts(out)
-
 	base, err := os.MkdirTemp("", "verif-c17-")
 	if err != nil {
 		t.Fatal(err)
 	}
-	defer os.RemoveAll(base)
-	h := &verifHarness{t: t, out: out, base: base, storePath: filepath.Join(base, "store", "fusestore.db"),
-		root: filepath.Join(base, "root"), mpIdx: map[string]int{}, newest: -1}
+	h = &verifHarness{t: t, out: out, base: base, storePath: filepath.Join(base, "store", "fusestore.db"),
+		root: filepath.Join(base, "root"), mpIdx: map[string]int{}, newest: -1,
+		failMount: map[string]bool{}, failCall: map[string]bool{}}
 
 	// mountpoints: plain directories (not OS mountpoints) and one real OS mountpoint
 	mounted := func(p string) bool {
@@ -1077,8 +1224,7 @@ func TestVerifC17(t *testing.T) {
 	}
 	sort.Strings(names) // byte order = bolt key order
 	h.mps = names
-	osIdx := -1
-	var plain []int
+	osIdx = -1
 	for i, n := range names {
 		h.mpIdx[n] = i
 		h.isOs = append(h.isOs, mounted(n))
@@ -1093,12 +1239,25 @@ func TestVerifC17(t *testing.T) {
 		out.Count("no-os-mountpoint")
 		osIdx = plain[0]
 	}
-
-	saved := configFuncs
 	savedHook := VerifWrapFileSystem
-	defer func() { configFuncs = saved; VerifWrapFileSystem = savedHook }()
-	configFuncs = []ConfigFunc{h.cfgFunc}
-	VerifWrapFileSystem = h.wrap
+	verifInstall(h)
+	cleanup = func() {
+		h.killServer()
+		VerifWrapFileSystem = savedHook
+		verifCurMu.Lock()
+		verifCur = nil
+		verifCurMu.Unlock()
+		os.RemoveAll(base)
+	}
+	return h, osIdx, plain, cleanup
+}
+
+func TestVerifC17(t *testing.T) {
+	out := verifutil.OpenOut()
+	defer out.Close()
+	rnd := verifutil.NewRand(verifutil.Seed())
+	h, osIdx, plain, cleanup := verifSetup(t, out)
+	defer cleanup()
 
 	runHist := func(tag string, lines []string) {
 		out.Comment("history " + tag)
@@ -1158,7 +1317,316 @@ func TestVerifC17(t *testing.T) {
 		}
 		out.Distinct(strings.Join(shape, ";"))
 	}
-	if h.srv != nil && !h.closed {
-		h.srv.ms.Close()
+}
+
+// ---------------------------------------------------------------------------------------------
+// Concurrent pass (built with -race).  The model treats every RPC as one atomic step.  That premise
+// is not read off the source text; it is observed: RPCs run concurrently on the real Server and
+//   * a data race on the manager's state (a lock dropped from one method, ...) makes the race
+//     detector fail the test binary,
+//   * at every quiescent point the sequential predicate must hold again: what the manager serves
+//     equals what the workers' own results imply, equals the live backend mounts, equals the store,
+//   * two overlapping Inits must end in a state one of their two orders explains (the filesystem
+//     that serves new mounts was built from the configuration the manager records for them).
+// Nothing here depends on HOW atomicity is achieved (mutex kind, lock placement, lock-free state).
+
+type verifWorker struct {
+	h      *verifHarness
+	rnd    *verifutil.Rand
+	own    []string          // mountpoints only this worker touches
+	served map[string]bool   // implied by this worker's own RPC results
+	lab    map[string]string // labels of the last Mount that returned ok
+}
+
+func (w *verifWorker) run(n int) {
+	h := w.h
+	ctx := context.Background()
+	for i := 0; i < n; i++ {
+		p := w.own[w.rnd.Intn(len(w.own))]
+		switch w.rnd.Pick(5, 3, 4) {
+		case 0:
+			li := w.rnd.Intn(len(verifLabelSets))
+			if w.rnd.Intn(100) < 12 {
+				h.mu.Lock()
+				h.failMount[p] = true
+				h.mu.Unlock()
+			}
+			res := h.rpc(func() error {
+				_, err := h.srv.Mount(ctx, &pb.MountRequest{Mountpoint: p, Labels: verifLabelSets[li]})
+				return err
+			})
+			h.mu.Lock()
+			delete(h.failMount, p)
+			h.mu.Unlock()
+			if res == "ok" {
+				w.served[p] = true
+				w.lab[p] = strconv.Itoa(li)
+			}
+			h.out.Count("conc-mount")
+		case 1:
+			fail := w.rnd.Intn(100) < 15
+			h.mu.Lock()
+			h.failCall[p] = fail
+			h.mu.Unlock()
+			res := h.rpc(func() error {
+				_, err := h.srv.Check(ctx, &pb.CheckRequest{Mountpoint: p})
+				return err
+			})
+			if res == "ok" && (!w.served[p] || fail) {
+				h.out.Fail("conc-check-ok-unexpected", fmt.Sprintf("Check(%s) returned ok (served by own results: %v, fs.Check scripted to fail: %v)", h.mpName(p), w.served[p], fail))
+			}
+			h.out.Count("conc-check")
+		default:
+			fail := w.rnd.Intn(100) < 15
+			h.mu.Lock()
+			h.failCall[p] = fail
+			h.mu.Unlock()
+			res := h.rpc(func() error {
+				_, err := h.srv.Unmount(ctx, &pb.UnmountRequest{Mountpoint: p})
+				return err
+			})
+			if res == "ok" {
+				if w.served[p] && fail {
+					h.out.Fail("conc-unmount-ok-unexpected", fmt.Sprintf("Unmount(%s) returned ok although fs.Unmount failed", h.mpName(p)))
+				}
+				w.served[p] = false
+			}
+			h.out.Count("conc-unmount")
+		}
+	}
+}
+
+// concQuiescent evaluates the sequential predicate on the quiescent state after a concurrent phase
+// in which every Init succeeded.
+func (h *verifHarness) concQuiescent(phase string, ws []*verifWorker) verifState {
+	now := h.snapshot()
+	for p, ids := range now.owners {
+		if len(ids) > 1 {
+			h.out.Fail("second-mount", fmt.Sprintf("[%s] %s has %d live mounts (fs %v)", phase, h.mpName(p), len(ids), ids))
+		}
+	}
+	if !now.fsKnown {
+		h.out.Fail("conc-not-ready", fmt.Sprintf("[%s] every Init returned ok but the manager does not accept requests", phase))
+		return now
+	}
+	for p, ids := range now.owners {
+		if id, ok := now.fsMap[p]; !ok {
+			h.out.Fail("live-mount-not-served", fmt.Sprintf("[%s] %s is mounted on fs%d but the manager does not serve it", phase, h.mpName(p), ids[0]))
+		} else if id != ids[0] {
+			h.out.Fail("owner-mismatch", fmt.Sprintf("[%s] %s was mounted by fs%d but the manager routes it to fs%d", phase, h.mpName(p), ids[0], id))
+		}
+	}
+	for p, id := range now.fsMap {
+		if len(now.owners[p]) == 0 {
+			h.out.Fail("served-without-live-mount", fmt.Sprintf("[%s] %s is served (fs%d) but no filesystem has it mounted", phase, h.mpName(p), id))
+		}
+		if _, ok := now.store[p]; !ok {
+			h.out.Fail("served-not-recorded", fmt.Sprintf("[%s] %s is served but not in the store", phase, h.mpName(p)))
+		}
+	}
+	for p := range now.store {
+		if _, ok := now.fsMap[p]; !ok {
+			h.out.Fail("recorded-not-served", fmt.Sprintf("[%s] %s recorded but not served although every Init returned ok", phase, h.mpName(p)))
+		}
+	}
+	for _, w := range ws {
+		for _, p := range w.own {
+			_, served := now.fsMap[p]
+			if served != w.served[p] {
+				h.out.Fail("conc-serving-ne-results", fmt.Sprintf("[%s] %s served=%v but the RPC results of its only client imply %v", phase, h.mpName(p), served, w.served[p]))
+			}
+			if r, ok := now.store[p]; ok && served && w.served[p] && r.lab != w.lab[p] {
+				h.out.Fail("conc-record-labels", fmt.Sprintf("[%s] %s recorded with labels %s, last successful Mount had %s", phase, h.mpName(p), r.lab, w.lab[p]))
+			}
+		}
+	}
+	return now
+}
+
+// concFreshMount mounts a so far unused mountpoint at a quiescent point and checks which filesystem
+// serves it: it must have been built from the configuration the manager records for the new mount
+// (allowed, if given, must contain that configuration), and (if newestOnly) be the last one built.
+func (h *verifHarness) concFreshMount(phase, p string, allowed []string, newestOnly bool) {
+	ctx := context.Background()
+	h.clearScript()
+	res := h.rpc(func() error {
+		_, err := h.srv.Mount(ctx, &pb.MountRequest{Mountpoint: p, Labels: verifLabelSets[1]})
+		return err
+	})
+	if res != "ok" {
+		h.out.Fail("conc-fresh-mount-failed", fmt.Sprintf("[%s] Mount(%s) at a quiescent point after successful Inits returned %s", phase, h.mpName(p), res))
+		return
+	}
+	now := h.snapshot()
+	ids := now.owners[p]
+	if len(ids) != 1 {
+		h.out.Fail("conc-fresh-mount-failed", fmt.Sprintf("[%s] Mount(%s) returned ok, live mounts: %v", phase, h.mpName(p), ids))
+		return
+	}
+	gen := h.fakeGen(ids[0])
+	rec, ok := now.store[p]
+	if !ok {
+		h.out.Fail("served-not-recorded", fmt.Sprintf("[%s] %s is served but not in the store", phase, h.mpName(p)))
+	} else if rec.cfg != gen {
+		h.out.Fail("mount-served-by-other-config", fmt.Sprintf("[%s] every Init returned ok, yet the new mount %s is served by fs%d built from config %s while the manager's current config (recorded with it) is %s",
+			phase, h.mpName(p), ids[0], gen, rec.cfg))
+	}
+	if len(allowed) > 0 {
+		found := false
+		for _, a := range allowed {
+			found = found || a == gen
+		}
+		if !found {
+			h.out.Fail("mount-served-by-other-config", fmt.Sprintf("[%s] new mount %s served by a filesystem built from config %s, expected one of %v", phase, h.mpName(p), gen, allowed))
+		}
+	}
+	h.mu.Lock()
+	newest := h.newest
+	h.mu.Unlock()
+	if newestOnly && ids[0] != newest {
+		h.out.Fail("mount-on-stale-fs", fmt.Sprintf("[%s] new mount %s served by fs%d but the newest filesystem is fs%d", phase, h.mpName(p), ids[0], newest))
+	}
+	res = h.rpc(func() error {
+		_, err := h.srv.Unmount(ctx, &pb.UnmountRequest{Mountpoint: p})
+		return err
+	})
+	if res != "ok" {
+		h.out.Fail("conc-fresh-mount-failed", fmt.Sprintf("[%s] Unmount(%s) of the fresh mount returned %s", phase, h.mpName(p), res))
+	}
+}
+
+func TestVerifC17Conc(t *testing.T) {
+	out := verifutil.OpenOut()
+	defer out.Close()
+	seed := verifutil.Seed()
+	rnd := verifutil.NewRand(seed ^ 0xC17C)
+	h, _, plain, cleanup := verifSetup(t, out)
+	defer cleanup()
+	h.conc = true
+	ctx := context.Background()
+	rounds := verifutil.EnvInt("VERIF_N", 10)
+	nInit := verifutil.EnvInt("VERIF_C17_CONC_INITS", 20)
+	nOps := verifutil.EnvInt("VERIF_C17_CONC_OPS", 150)
+	grace := time.Duration(verifutil.EnvInt("VERIF_C17_CONC_GRACE_MS", 100)) * time.Millisecond
+	fresh := h.mps[plain[4]]
+	gen := int64(0)
+	initOK := func(phase string, g int64) string {
+		res := h.rpc(func() error {
+			_, err := h.srv.Init(ctx, &pb.InitRequest{Root: h.root, Config: h.cfgJSON(g)})
+			return err
+		})
+		if res != "ok" {
+			out.Fail("conc-init-failed", fmt.Sprintf("[%s] Init(config %d) without any injected failure returned %s", phase, g, res))
+		}
+		return res
+	}
+	for r := 0; r < rounds; r++ {
+		h.reset()
+		h.clearScript()
+		gen++
+		initOK("prefix", gen)
+		ws := []*verifWorker{
+			{h: h, rnd: verifutil.NewRand(seed*1000 + uint64(r)*10 + 1), own: []string{h.mps[plain[0]], h.mps[plain[1]]}, served: map[string]bool{}, lab: map[string]string{}},
+			{h: h, rnd: verifutil.NewRand(seed*1000 + uint64(r)*10 + 2), own: []string{h.mps[plain[2]], h.mps[plain[3]]}, served: map[string]bool{}, lab: map[string]string{}},
+		}
+		// phase 1: free-running Inits (one client, some re-sending the same config) against two
+		// Mount/Check/Unmount clients with disjoint mountpoints
+		var wg sync.WaitGroup
+		for _, w := range ws {
+			wg.Add(1)
+			go func(w *verifWorker) { defer wg.Done(); w.run(nOps) }(w)
+		}
+		wg.Add(1)
+		lastGen := gen
+		go func() {
+			defer wg.Done()
+			for i := 0; i < nInit; i++ {
+				if rnd.Intn(100) >= 35 {
+					gen++
+				}
+				initOK("free", gen)
+				lastGen = gen
+				out.Count("conc-init")
+			}
+		}()
+		wg.Wait()
+		h.concQuiescent("free", ws)
+		h.concFreshMount("free", fresh, []string{strconv.FormatInt(lastGen, 10)}, true)
+
+		// phase 2: two overlapping Inits.  Init(A) is held inside its configFunc; Init(B) is sent
+		// meanwhile and given `grace` to finish (it cannot while A is exclusive); then A is released.
+		gen++
+		a := gen
+		gen++
+		b := gen
+		h.mu.Lock()
+		h.blockGen = strconv.FormatInt(a, 10)
+		h.blockEntered = make(chan struct{})
+		h.blockRelease = make(chan struct{})
+		entered, release := h.blockEntered, h.blockRelease
+		h.mu.Unlock()
+		doneA, doneB := make(chan string, 1), make(chan string, 1)
+		go func() { doneA <- initOK("overlap-A", a) }()
+		select {
+		case <-entered:
+			go func() { doneB <- initOK("overlap-B", b) }()
+			select {
+			case res := <-doneB:
+				doneB <- res
+				out.Count("conc-overlap-second-init-finished-first")
+			case <-time.After(grace):
+			}
+			h.mu.Lock()
+			h.blockGen = ""
+			h.mu.Unlock()
+			close(release)
+			<-doneA
+			<-doneB
+		case <-doneA:
+			// Init(A) never reached its configFunc (it returned): nothing to overlap with
+			h.mu.Lock()
+			h.blockGen = ""
+			h.mu.Unlock()
+			out.Count("conc-overlap-skipped")
+		}
+		h.concQuiescent("overlap", ws)
+		h.concFreshMount("overlap", fresh, []string{strconv.FormatInt(a, 10), strconv.FormatInt(b, 10)}, false)
+		out.Count("conc-overlap")
+
+		// phase 3: Close against running clients; afterwards every request is rejected
+		for _, w := range ws {
+			wg.Add(1)
+			go func(w *verifWorker) { defer wg.Done(); w.run(nOps / 3) }(w)
+		}
+		wg.Add(2)
+		go func() {
+			defer wg.Done()
+			for i := 0; i < 300; i++ {
+				h.status() // a reader of the manager's status that shares nothing with the harness
+			}
+		}()
+		go func() {
+			defer wg.Done()
+			time.Sleep(time.Duration(rnd.Intn(300)) * time.Microsecond)
+			h.rpc(func() error { return h.srv.Close(ctx) })
+		}()
+		wg.Wait()
+		h.closed = true
+		h.clearScript()
+		for _, p := range []string{fresh, ws[0].own[0]} {
+			res := h.rpc(func() error {
+				_, err := h.srv.Mount(ctx, &pb.MountRequest{Mountpoint: p, Labels: verifLabelSets[1]})
+				return err
+			})
+			if res != "err" {
+				out.Fail("request-after-close-not-rejected", fmt.Sprintf("[close] Mount(%s) after Close returned %s", h.mpName(p), res))
+			}
+		}
+		for p, ids := range h.liveMounts() {
+			if len(ids) > 1 {
+				out.Fail("second-mount", fmt.Sprintf("[close] %s has %d live mounts (fs %v)", h.mpName(p), len(ids), ids))
+			}
+		}
+		out.Distinct(fmt.Sprintf("round-%d", r))
 	}
 }
